@@ -731,7 +731,7 @@ func removalsPersisted(c *engine.Ctx) {
 		// does store() enumerate the primitive?
 		enumerates, found := false, false
 		for _, fi := range c.P.FuncsOf(st) {
-			if fi.Decl.Name.Name != "store" {
+			if !strings.HasSuffix(fi.Name(), ".store") { // resolved name: a renamed helper keeps its row (engine.detectRenames)
 				continue
 			}
 			found = true
